@@ -28,8 +28,8 @@ use rayon::prelude::*;
 use rpki::ca::provisioning::RequestResourceLimit;
 use rpki::repository::cert::Overclaim;
 use rpki::repository::resources::{
-    Addr, AddressFamily, AddressRange, AsBlock, AsBlocks, AsBlocksBuilder, AsResources, Asn, IpBlock, IpBlocks,
-    IpBlocksBuilder, IpResources, Ipv4Blocks, Ipv6Blocks, Prefix, ResourceSet,
+    Addr, AddressFamily, AddressRange, AsBlock, AsBlocks, AsBlocksBuilder, AsResources, AsResourcesBuilder, Asn, IpBlock,
+    IpBlocks, IpBlocksBuilder, IpResources, IpResourcesBuilder, Ipv4Block, Ipv4Blocks, Ipv6Block, Ipv6Blocks, Prefix, ResourceSet,
 };
 use rpki::repository::roa::RoaIpAddress;
 use rpki_verif::engine::der;
@@ -171,7 +171,6 @@ impl Dom {
     }
 
     fn natoms(&self) -> usize { self.atoms.len() }
-    fn full(&self) -> u32 { (1u32 << self.natoms()) - 1 }
 
     /// Maximal runs of atoms in a mask, as family-unit ranges.
     fn runs(&self, mask: u32) -> Vec<(u128, u128)> {
@@ -342,12 +341,12 @@ fn analyze(dom: &Dom, r: &[Blk], want: u32) -> Vec<(&'static str, String)> {
 //------------ construction paths ----------------------------------------------------
 
 const AS_PATHS: &[&str] = &["from_iter", "builder", "text", "text_ranges", "serde", "der_ext", "der_inner"];
-const IP_PATHS: &[&str] = &["from_iter", "builder", "text_auto", "text_ranges", "serde", "der_ext", "der_family", "der_nofamily"];
+const IP_PATHS: &[&str] = &["from_iter", "builder", "text_auto", "text_ranges", "serde", "der_ext", "der_family", "der_nofamily", "typed_from_iter"];
 
 #[derive(Clone, Copy, PartialEq, Eq)]
 enum Class { Api, Text, Der }
 
-fn path_class(p: usize) -> Class { if p < 2 { Class::Api } else if p < 5 { Class::Text } else { Class::Der } }
+fn path_class(p: usize) -> Class { if p < 2 { Class::Api } else if p < 5 || p == 8 { Class::Text } else { Class::Der } }
 
 fn join_txt(seq: &[&ABlock], idiomatic: bool) -> String {
     let v: Vec<&str> = seq.iter().map(|b| if idiomatic { b.txt_a.as_str() } else { b.txt_b.as_str() }).collect();
@@ -365,9 +364,10 @@ fn build(dom: &Dom, path: usize, seq: &[&ABlock]) -> Result<Val, String> {
         Kind::As => Ok(Val::As(match path {
             0 => seq.iter().map(|b| AsBlock::from((asn(b.lo), asn(b.hi)))).collect::<AsBlocks>(),
             1 => {
-                let mut bld = AsBlocksBuilder::new();
-                for b in seq { if b.lo == b.hi { bld.push(asn(b.lo)) } else { bld.push((asn(b.lo), asn(b.hi))) } }
-                bld.finalize()
+                // AsResourcesBuilder wraps AsBlocksBuilder; every other sequence uses the inner builder directly
+                let fill = |bld: &mut AsBlocksBuilder| for b in seq { if b.lo == b.hi { bld.push(asn(b.lo)) } else { bld.push((asn(b.lo), asn(b.hi))) } };
+                if seq.len() % 2 == 0 { let mut bld = AsBlocksBuilder::new(); fill(&mut bld); bld.finalize() }
+                else { let mut r = AsResourcesBuilder::new(); r.blocks(fill); r.finalize().to_blocks().map_err(|e| e.to_string())? }
             }
             2 => AsBlocks::from_str(&join_txt(seq, true)).map_err(|e| e.to_string())?,
             3 => AsBlocks::from_str(&join_txt(seq, false)).map_err(|e| e.to_string())?,
@@ -386,14 +386,14 @@ fn build(dom: &Dom, path: usize, seq: &[&ABlock]) -> Result<Val, String> {
             Ok(Val::Ip(match path {
                 0 => seq.iter().map(|b| IpBlock::from(AddressRange::new(addr(k.lib_min(b.lo)), addr(k.lib_max(b.hi))))).collect::<IpBlocks>(),
                 1 => {
-                    let mut bld = IpBlocksBuilder::new();
-                    for b in seq {
+                    let fill = |bld: &mut IpBlocksBuilder| for b in seq {
                         match prefix_len(b.lo, b.hi, k.width()) {
                             Some(l) => bld.push(Prefix::new(addr(k.lib_min(b.lo)), l)),
                             None => bld.push((addr(k.lib_min(b.lo)), addr(k.lib_max(b.hi)))),
                         }
-                    }
-                    bld.finalize()
+                    };
+                    if seq.len() % 2 == 0 { let mut bld = IpBlocksBuilder::new(); fill(&mut bld); bld.finalize() }
+                    else { let mut r = IpResourcesBuilder::new(); r.blocks(fill); r.finalize().to_blocks().map_err(|e| e.to_string())? }
                 }
                 2 => IpBlocks::from_str(&join_txt(seq, true)).map_err(|e| e.to_string())?,
                 3 => if k == Kind::V4 { (*Ipv4Blocks::from_str(&join_txt(seq, false)).map_err(|e| e.to_string())?).clone() }
@@ -414,6 +414,16 @@ fn build(dom: &Dom, path: usize, seq: &[&ABlock]) -> Result<Val, String> {
                 }
                 6 => Mode::Der.decode(items_der(seq, false).as_slice(), |cons| IpBlocks::take_from_with_family(cons, fam)).map_err(|e| e.to_string())?,
                 7 => Mode::Der.decode(items_der(seq, true).as_slice(), |cons| IpBlocks::take_from(cons)).map_err(|e| e.to_string())?,
+                8 => {
+                    // FromIterator of the family-typed blocks (which only exist as parsed text)
+                    if k == Kind::V4 {
+                        let v: Result<Vec<Ipv4Block>, _> = seq.iter().map(|b| Ipv4Block::from_str(&b.txt_a)).collect();
+                        (*v.map_err(|e| e.to_string())?.into_iter().collect::<Ipv4Blocks>()).clone()
+                    } else {
+                        let v: Result<Vec<Ipv6Block>, _> = seq.iter().map(|b| Ipv6Block::from_str(&b.txt_b)).collect();
+                        (*v.map_err(|e| e.to_string())?.into_iter().collect::<Ipv6Blocks>()).clone()
+                    }
+                }
                 _ => unreachable!(),
             }))
         }
@@ -724,7 +734,7 @@ fn queries(ctx: &Ctx, dom: &Dom, have: &[Option<Val>]) {
         let st = || format!("set={}", dom.show_mask(m));
         let mut oc: BTreeMap<&'static str, u64> = BTreeMap::new();
         let (mut evals, mut nontriv) = (0u64, 0u64);
-        let mut tally = |oc: &mut BTreeMap<&'static str, u64>, b: bool, t: &'static str, f: &'static str| { *oc.entry(if b { t } else { f }).or_insert(0) += 1; };
+        let tally = |oc: &mut BTreeMap<&'static str, u64>, b: bool, t: &'static str, f: &'static str| { *oc.entry(if b { t } else { f }).or_insert(0) += 1; };
         // single values
         for &x in &pts {
             let want = dom.touched(x, x) & m != 0;
